@@ -11,7 +11,7 @@ RULE = ('generated programs as in C05 (all callable kinds, sync and async, stack
 EXHAUSTIVE = {'quick': False, 'thorough': False}
 ASSUMPTIONS = C.__dict__.get('ASSUMPTIONS', ['programs are real files (inspect.getsource works)'])
 TRUSTED = ['CPython inspect / functools.wraps semantics', 'generator functions: only the creation of the GeneratorWrapper is exercised here (yield / send / return checks: GenWrap model)']
-FINDINGS = [('namedtuple', 'namedtupleStructuralArgument'), ('untruthful', None), ('clazzFails', None)]
+FINDINGS = [('untruthful', None), ('clazzFails', None)]      # (`namedtupleStructuralArgument` is repaired)
 
 
 def cases(rng, tier):
@@ -41,8 +41,7 @@ def judge(case, impl, model):
     out = C.norm_out(impl['out'])
     pedantic = case['c']['fn']['mode'] == 'pedantic'
     pfail = None
-    claimed = (pedantic and 'nonPlain' not in model['regions'] or 'namedtuple' in model['regions'] and pedantic) \
-        and 'fwdUnresolved' not in model['regions']
+    claimed = pedantic and 'iterator' not in model['regions'] and 'fwdUnresolved' not in model['regions']       # guard of args_guard: no one-shot iterator
     # an attribute assignment reaches the property setter positionally by Python's own protocol: claimed like a keyword call
     setter = case['x']['access'][0] == 'propset'
     kwcall = s['keywordCall'] or setter
@@ -57,9 +56,6 @@ def judge(case, impl, model):
     if pfail is None and claimed and s['badProduced'] and out == 'RET':
         pfail = f'a non-conforming result was handed to the caller - {C.describe_case(case)}'
     finding = None
-    if pfail and corr:
-        if 'namedtuple' in model['regions']:
-            finding = 'namedtupleStructuralArgument'
     bad_in = bool(s['anyNonConforming'] or setter and s.get('positionalBad') or posbad)
     return {'corr': corr, 'pfail': pfail, 'finding': finding, 'nontrivial': bool(bad_in or s['badProduced']),
             'tag': f"{case['x']['kind']}/{case['x']['access'][0]}/{case['x']['flavour']}/bad={int(bad_in)}{int(s['badProduced'])}/{out}", 'why': why}
